@@ -161,6 +161,14 @@ func journal(sub string, raw []byte) {
 	journalFile.WriteAt(doc, 0)
 }
 
+func journalClear() {
+	journalMu.Lock()
+	defer journalMu.Unlock()
+	if journalFile != nil {
+		journalFile.Truncate(0)
+	}
+}
+
 // CaseFile is the on-disk form of a replayable case.
 type CaseFile struct {
 	Property string          `json:"property"`
@@ -433,7 +441,12 @@ func (s *Sub[C]) Check(t *testing.T, quick, thorough int) {
 		flag.Set("rapid.shrinktime", "20s")
 	}
 	start := time.Now()
-	defer func() { col.flush(start, !t.Failed()) }()
+	defer func() {
+		col.flush(start, !t.Failed())
+		if s.Journal {
+			journalClear()
+		}
+	}()
 	rapid.Check(t, func(rt *rapid.T) {
 		c := s.Gen(rt)
 		if err := s.one(col, c); err != nil {
@@ -454,7 +467,12 @@ func (s *Sub[C]) Enumerate(t *testing.T, complete bool) {
 	col := newCollector(s.Name, "enum", s.Rule)
 	col.noHash = true
 	start := time.Now()
-	defer func() { col.flush(start, !t.Failed()) }()
+	defer func() {
+		col.flush(start, !t.Failed())
+		if s.Journal {
+			journalClear()
+		}
+	}()
 	var idx int64
 	failed := false
 	s.Enum(func(c C) bool {
